@@ -146,3 +146,352 @@ Lemma root_cause ctl st : reachable ctl st ->
 Proof.
   intros [ls Hr]. eapply phase_run; [|exact Hr]. split; intros; cbn in *; tauto.
 Qed.
+
+(* ---------- steps of the teardown agents, counted ---------- *)
+(* the agents that finish a teardown: the router ([TdStep]) and the senders that hold a channel slot ([Push]) *)
+Definition is_prog (l : label) : bool := match l with TdStep | Push _ => true | _ => false end.
+(* a new submit *)
+Definition is_subm (l : label) : bool := match l with Reserve _ => true | _ => false end.
+Definition cnt (f : label -> bool) (ls : list label) : nat := List.length (filter f ls).
+
+Lemma td_measure_eq a b :
+  c_status a = c_status b -> List.length (c_handlers a) = List.length (c_handlers b) ->
+  List.length (c_queue a) = List.length (c_queue b) -> List.length (c_reserved a) = List.length (c_reserved b) ->
+  td_measure a = td_measure b.
+Proof. intros H1 H2 H3 H4. unfold td_measure. rewrite H1, H2, H3, H4. reflexivity. Qed.
+
+Lemma td_measure_complete e r o s : closing e s -> td_measure (complete r o s) = td_measure s.
+Proof.
+  intros Hc. destruct (complete_fields r o s) as (_&E2&_&E4&_&_&_&_&_&_&_&_&E13).
+  apply td_measure_eq; [apply complete_closing with (e := e); exact Hc|rewrite E2|rewrite E4|rewrite E13]; reflexivity.
+Qed.
+
+(* potential: a step of a teardown agent costs one unit, a new submit adds at most two, nothing else adds *)
+Lemma step_potential st l st' e : Inv st -> closing e st -> step st l = Some st' ->
+  (td_measure st' + (if is_prog l then 1 else 0) <= td_measure st + (if is_subm l then 2 else 0))%nat.
+Proof.
+  intros HI Hst Hs. pose proof (closing_not_open _ _ Hst) as Hno.
+  destruct l as [r|r|r|so|bs| |k| |r| |]; unfold step in Hs; cbn [is_prog is_subm].
+  - destruct (nmem r (c_submitted st)); [discriminate|].
+    change (chan_closed (set_submitted (c_submitted st ++ [r]) st)) with (chan_closed st) in Hs.
+    destruct (chan_closed st); injection Hs as <-.
+    + rewrite (td_measure_complete e); [|exact Hst]. unfold td_measure. cbn. lia.
+    + unfold td_measure. cbn. rewrite app_length. cbn. destruct (c_status st); lia.
+  - destruct (nmem r (c_reserved st)) eqn:En; [|discriminate]. apply nmem_In in En. injection Hs as <-.
+    destruct (nremove_split _ _ En) as (l1 & l2 & El & Er).
+    unfold td_measure. cbn. rewrite Er, El, !app_length. cbn.
+    destruct (c_status st) eqn:Es; try lia.
+    + destruct Hst as [H|[H|H]]; rewrite Es in H; discriminate.
+    + pose proof (inv_status _ HI) as Hok. rewrite Es in Hok. destruct Hok as (_ & _ & Hr). rewrite Hr in En. destruct En.
+  - destruct (nmem r (c_submitted st)); [discriminate|]. rewrite Hno in Hs. discriminate.
+  - rewrite Hno in Hs. discriminate.
+  - rewrite Hno in Hs. injection Hs as <-. lia.
+  - rewrite Hno in Hs. discriminate.
+  - rewrite Hno in Hs. discriminate.
+  - rewrite Hno in Hs. discriminate.
+  - destruct (nmem r (c_submitted st) && negb (nmem r (map fst (c_done st))) && negb (nmem r (c_cancelled st))); [|discriminate].
+    injection Hs as <-. unfold td_measure. cbn. lia.
+  - rewrite Hno in Hs. discriminate.
+  - destruct (c_status st) as [|e0|e0|e0] eqn:Es; try discriminate.
+    + destruct (c_handlers st) as [|[s r] h] eqn:Eh; injection Hs as <-.
+      * unfold td_measure. cbn. rewrite Es, Eh. cbn. lia.
+      * rewrite (td_measure_complete e0); [|left; exact Es]. unfold td_measure. cbn. rewrite Es, Eh. cbn. lia.
+    + destruct (c_queue st) as [|r q] eqn:Eq.
+      * destruct (c_reserved st) as [|x xs] eqn:Er; [injection Hs as <-|discriminate].
+        unfold td_measure. cbn. rewrite Es, Eq, Er. cbn. lia.
+      * injection Hs as <-. rewrite (td_measure_complete e0); [|right; left; exact Es].
+        unfold td_measure. cbn. rewrite Es, Eq. cbn. lia.
+Qed.
+
+Lemma run_potential ls : forall st st' e, Inv st -> closing e st -> run st ls = Some st' ->
+  (td_measure st' + cnt is_prog ls <= td_measure st + 2 * cnt is_subm ls)%nat.
+Proof.
+  induction ls as [|l rest IH]; intros st st' e HI Hst Hr; cbn [run] in Hr.
+  - injection Hr as <-. unfold cnt. cbn. lia.
+  - destruct (step st l) as [s1|] eqn:E; [|discriminate].
+    pose proof (step_potential _ _ _ _ HI Hst E) as H1.
+    destruct (step_closing _ _ _ _ Hst E) as (Hc1 & _).
+    pose proof (IH _ _ _ (inv_step _ _ _ HI E) Hc1 Hr) as H2.
+    unfold cnt in *. cbn [filter]. destruct (is_prog l), (is_subm l); cbn [List.length]; lia.
+Qed.
+
+(* after receiver.close() new submits add nothing *)
+Lemma step_potential_draining st l st' : Inv st -> chan_closed st = true -> step st l = Some st' ->
+  (td_measure st' + (if is_prog l then 1 else 0) <= td_measure st)%nat /\ chan_closed st' = true.
+Proof.
+  intros HI Hcl Hs.
+  assert (He : exists e, c_status st = Draining e \/ c_status st = Broken e).
+  { unfold chan_closed in Hcl. destruct (c_status st) as [|e|e|e]; try discriminate; exists e; auto. }
+  destruct He as [e He].
+  assert (Hst : closing e st) by (destruct He; [right; left|right; right]; assumption).
+  destruct (step_closing _ _ _ _ Hst Hs) as (Hc1 & _).
+  split.
+  - pose proof (step_potential _ _ _ _ HI Hst Hs) as H.
+    destruct l as [r|r|r|so|bs| |k| |r| |]; cbn [is_subm] in H; [|cbn [is_prog] in *; lia..].
+    (* Reserve after close: fails at once *)
+    cbn [is_prog]. unfold step in Hs. destruct (nmem r (c_submitted st)); [discriminate|].
+    change (chan_closed (set_submitted (c_submitted st ++ [r]) st)) with (chan_closed st) in Hs.
+    rewrite Hcl in Hs. injection Hs as <-. rewrite (td_measure_complete e); [|exact Hst]. unfold td_measure. cbn. destruct (c_status st); lia.
+  - (* closing e st', and not back to TearingDown: the measure argument is not needed, statuses only move forward *)
+    unfold chan_closed. destruct Hc1 as [H|[H|H]]; rewrite H; try reflexivity.
+    exfalso.
+    (* st' = TearingDown e although st was Draining/Broken: impossible, td_measure would have grown by >= 1 ... use status_ok *)
+    destruct l as [r|r|r|so|bs| |k| |r| |]; unfold step in Hs; pose proof (closing_not_open _ _ Hst) as Hno.
+    + destruct (nmem r (c_submitted st)); [discriminate|].
+      change (chan_closed (set_submitted (c_submitted st ++ [r]) st)) with (chan_closed st) in Hs.
+      rewrite Hcl in Hs. injection Hs as <-. rewrite (complete_closing e) in H; [|exact Hst]. cbn in H.
+      destruct He as [He|He]; rewrite He in H; discriminate.
+    + destruct (nmem r (c_reserved st)); [|discriminate]. injection Hs as <-. cbn in H. destruct He as [He|He]; rewrite He in H; discriminate.
+    + destruct (nmem r (c_submitted st)); [discriminate|]. rewrite Hno in Hs. discriminate.
+    + rewrite Hno in Hs. discriminate.
+    + rewrite Hno in Hs. injection Hs as <-. destruct He as [He|He]; rewrite He in H; discriminate.
+    + rewrite Hno in Hs. discriminate.
+    + rewrite Hno in Hs. discriminate.
+    + rewrite Hno in Hs. discriminate.
+    + destruct (nmem r (c_submitted st) && negb (nmem r (map fst (c_done st))) && negb (nmem r (c_cancelled st))); [|discriminate].
+      injection Hs as <-. cbn in H. destruct He as [He|He]; rewrite He in H; discriminate.
+    + rewrite Hno in Hs. discriminate.
+    + destruct He as [He|He]; rewrite He in Hs; [|discriminate].
+      destruct (c_queue st) as [|r q].
+      * destruct (c_reserved st); [injection Hs as <-|discriminate]. cbn in H. discriminate.
+      * injection Hs as <-. rewrite (complete_closing e) in H; [|right; left; cbn; exact He]. cbn in H. rewrite He in H. discriminate.
+Qed.
+
+Lemma run_potential_draining ls : forall st st', Inv st -> chan_closed st = true -> run st ls = Some st' ->
+  (td_measure st' + cnt is_prog ls <= td_measure st)%nat.
+Proof.
+  induction ls as [|l rest IH]; intros st st' HI Hcl Hr; cbn [run] in Hr.
+  - injection Hr as <-. unfold cnt. cbn. lia.
+  - destruct (step st l) as [s1|] eqn:E; [|discriminate].
+    destruct (step_potential_draining _ _ _ HI Hcl E) as (H1 & Hcl1).
+    pose proof (IH _ _ (inv_step _ _ _ HI E) Hcl1 Hr) as H2.
+    unfold cnt in *. cbn [filter]. destruct (is_prog l); cbn [List.length]; lia.
+Qed.
+
+Lemma measure_zero_broken st e : Inv st -> closing e st -> td_measure st = O ->
+  c_status st = Broken e /\ pending_rids st = [].
+Proof.
+  intros HI Hc Hm. unfold td_measure in Hm.
+  destruct Hc as [H|[H|H]]; rewrite H in Hm; try discriminate.
+  split; [exact H|]. pose proof (inv_status _ HI) as Hok. rewrite H in Hok. destruct Hok as (Eh & Eq & Er).
+  unfold pending_rids. rewrite Eh, Eq, Er. reflexivity.
+Qed.
+
+Lemma broken_all_done st e : Inv st -> c_status st = Broken e ->
+  forall r, In r (c_submitted st) -> (exists o, outcome_of r (c_done st) = Some o) \/ In r (c_cancelled st).
+Proof.
+  intros HR HB r Hin. destruct (inv_acct _ HR) as (_ & Hd & _ & _ & Hs).
+  pose proof (inv_status _ HR) as Hok. rewrite HB in Hok. destruct Hok as (Eh & Eq & Er).
+  destruct (Hs r Hin) as [H|[H|H]]; [|unfold pending_rids in H; rewrite Eh, Eq, Er in H; destruct H|right; exact H].
+  left. apply in_map_iff in H. destruct H as [[r' o] [E Ho]]. cbn in E. subst r'.
+  exists o. apply outcome_of_In; assumption.
+Qed.
+
+(* Liveness under fairness, finite core.  For EVERY schedule [ls] run from a state in teardown -- whatever
+   else is interleaved (submits, drops, late bytes) --
+   (1) the router and the slot holders can take at most  td_measure st + 2 * (new submits)  steps, and
+   (2) a schedule that contains that many of THEIR steps has finished the teardown: the connection is
+       Broken, nothing is pending, every request ever submitted has an outcome or was dropped by its caller.
+   With C10_teardown_progress (while not finished, one of their steps is enabled) this is the liveness
+   argument: a weakly fair scheduler -- one that does not ignore an enabled router / slot holder for ever --
+   produces a prefix with that many of their steps. *)
+Lemma fair_liveness ctl st e ls st' : reachable ctl st ->
+  c_status st = TearingDown e \/ c_status st = Draining e -> run st ls = Some st' ->
+  (td_measure st' + cnt is_prog ls <= td_measure st + 2 * cnt is_subm ls)%nat /\
+  ((td_measure st + 2 * cnt is_subm ls <= cnt is_prog ls)%nat ->
+     c_status st' = Broken e /\ pending_rids st' = [] /\
+     forall r, In r (c_submitted st') -> (exists o, outcome_of r (c_done st') = Some o) \/ In r (c_cancelled st')).
+Proof.
+  intros HR Hst Hr. apply inv_reachable in HR.
+  assert (Hc : closing e st) by (destruct Hst; [left|right; left]; assumption).
+  pose proof (run_potential _ _ _ _ HR Hc Hr) as HP. split; [exact HP|]. intros Hfair.
+  assert (I' : Inv st') by (eapply inv_run; eassumption).
+  destruct (run_closing _ _ _ _ Hc Hr) as (Hc' & _).
+  destruct (measure_zero_broken _ _ I' Hc') as (HB & HPn); [lia|].
+  repeat split; [exact HB|exact HPn|]. apply (broken_all_done _ e I' HB).
+Qed.
+
+(* the same after receiver.close(): new submits are refused at once and add nothing *)
+Lemma fair_drain ctl st e ls st' : reachable ctl st -> c_status st = Draining e -> run st ls = Some st' ->
+  (td_measure st' + cnt is_prog ls <= td_measure st)%nat /\
+  ((td_measure st <= cnt is_prog ls)%nat -> c_status st' = Broken e /\ pending_rids st' = []).
+Proof.
+  intros HR Hst Hr. apply inv_reachable in HR.
+  assert (Hc : closing e st) by (right; left; assumption).
+  assert (Hcl : chan_closed st = true) by (unfold chan_closed; rewrite Hst; reflexivity).
+  pose proof (run_potential_draining _ _ _ HR Hcl Hr) as HP. split; [exact HP|]. intros Hfair.
+  assert (I' : Inv st') by (eapply inv_run; eassumption).
+  destruct (run_closing _ _ _ _ Hc Hr) as (Hc' & _).
+  apply (measure_zero_broken _ _ I' Hc'). lia.
+Qed.
+
+(* ---------- the root cause, per run ---------- *)
+(* In a non-open state a request is completed only with THE error of the connection, or -- a submit made
+   after receiver.close() -- refused with ChannelError. *)
+Lemma step_closing_exact st l st' e : closing e st -> step st l = Some st' ->
+  forall r o, In (r, o) (c_done st') ->
+    In (r, o) (c_done st) \/ o = FailBroken e \/ (o = FailChannel /\ ~ In r (c_submitted st)).
+Proof.
+  intros Hst Hs r0 o0 Hin. pose proof (closing_not_open _ _ Hst) as Hno.
+  destruct l as [r|r|r|so|bs| |k| |r| |]; unfold step in Hs.
+  - destruct (nmem r (c_submitted st)) eqn:En; [discriminate|]. apply nmem_false in En.
+    change (chan_closed (set_submitted (c_submitted st ++ [r]) st)) with (chan_closed st) in Hs.
+    destruct (chan_closed st); injection Hs as <-.
+    + destruct (complete_fields r FailChannel (set_submitted (c_submitted st ++ [r]) st)) as (_&_&_&_&_&E6&_).
+      rewrite E6 in Hin. cbn in Hin. apply in_app_or in Hin. destruct Hin as [Hin|[Hin|[]]]; [left; exact Hin|].
+      injection Hin as <- <-. right. right. split; [reflexivity|exact En].
+    + left. exact Hin.
+  - destruct (nmem r (c_reserved st)); [|discriminate]. injection Hs as <-. left. exact Hin.
+  - destruct (nmem r (c_submitted st)); [discriminate|]. rewrite Hno in Hs. discriminate.
+  - rewrite Hno in Hs. discriminate.
+  - rewrite Hno in Hs. injection Hs as <-. left. exact Hin.
+  - rewrite Hno in Hs. discriminate.
+  - rewrite Hno in Hs. discriminate.
+  - rewrite Hno in Hs. discriminate.
+  - destruct (nmem r (c_submitted st) && negb (nmem r (map fst (c_done st))) && negb (nmem r (c_cancelled st))); [|discriminate].
+    injection Hs as <-. left. exact Hin.
+  - rewrite Hno in Hs. discriminate.
+  - destruct (c_status st) as [|e0|e0|e0] eqn:Es; try discriminate.
+    + assert (e0 = e) by (destruct Hst as [H|[H|H]]; congruence). subst e0.
+      destruct (c_handlers st) as [|[s r] h]; injection Hs as <-; [left; exact Hin|].
+      destruct (complete_fields r (FailBroken e) (set_handlers h st)) as (_&_&_&_&_&E6&_).
+      rewrite E6 in Hin. cbn in Hin. apply in_app_or in Hin. destruct Hin as [Hin|[Hin|[]]]; [left; exact Hin|].
+      injection Hin as <- <-. right. left. reflexivity.
+    + assert (e0 = e) by (destruct Hst as [H|[H|H]]; congruence). subst e0.
+      destruct (c_queue st) as [|r q].
+      * destruct (c_reserved st); [injection Hs as <-|discriminate]. left. exact Hin.
+      * injection Hs as <-.
+        destruct (complete_fields r (FailBroken e) (set_queue q st)) as (_&_&_&_&_&E6&_).
+        rewrite E6 in Hin. cbn in Hin. apply in_app_or in Hin. destruct Hin as [Hin|[Hin|[]]]; [left; exact Hin|].
+        injection Hin as <- <-. right. left. reflexivity.
+Qed.
+
+Lemma run_closing_exact ls : forall st st' e, closing e st -> run st ls = Some st' ->
+  forall r o, In (r, o) (c_done st') ->
+    In (r, o) (c_done st) \/ o = FailBroken e \/ (o = FailChannel /\ ~ In r (c_submitted st)).
+Proof.
+  induction ls as [|l rest IH]; intros st st' e Hst Hr r o Hin; cbn [run] in Hr.
+  - injection Hr as <-. left. exact Hin.
+  - destruct (step st l) as [s1|] eqn:E; [|discriminate].
+    destruct (step_closing _ _ _ _ Hst E) as (Hc1 & _).
+    destruct (IH _ _ _ Hc1 Hr r o Hin) as [H|[H|[H1 H2]]].
+    + apply (step_closing_exact _ _ _ _ Hst E). exact H.
+    + right. left. exact H.
+    + right. right. split; [exact H1|]. intros Hs. apply H2. eapply step_submitted_mono; eassumption.
+Qed.
+
+(* Run-level root cause: after ANY history, once a step has put the connection into teardown with error e,
+   in EVERY continuation every request the connection fails with the router's error fails with e; whatever
+   is completed afterwards is completed with FailBroken e, or is a submit made after the fault that was
+   refused with ChannelError after receiver.close(); a request pending at the fault can only get
+   FailBroken e, and has got it when the router has finished. *)
+Lemma root_cause_run ctl ls1 l ls2 st1 st2 st3 e :
+  run (conn_init ctl) ls1 = Some st1 -> step st1 l = Some st2 -> c_status st2 = TearingDown e ->
+  run st2 ls2 = Some st3 ->
+  closing e st3 /\
+  (forall r e', In (r, FailBroken e') (c_done st3) -> e' = e) /\
+  (forall r o, In (r, o) (c_done st3) ->
+     In (r, o) (c_done st2) \/ o = FailBroken e \/
+     (o = FailChannel /\ chan_closed st3 = true /\ ~ In r (c_submitted st2))) /\
+  (forall r o, In r (pending_rids st2) -> outcome_of r (c_done st3) = Some o -> o = FailBroken e) /\
+  (c_status st3 = Broken e -> forall r, In r (pending_rids st2) -> outcome_of r (c_done st3) = Some (FailBroken e)).
+Proof.
+  intros R1 S2 T2 R3.
+  assert (I2 : Inv st2). { eapply inv_step; [|exact S2]. eapply inv_run; [apply inv_init|exact R1]. }
+  assert (HR3 : reachable ctl st3).
+  { exists (ls1 ++ l :: ls2). rewrite run_app, R1. cbn [run]. rewrite S2. exact R3. }
+  assert (Hc2 : closing e st2) by (left; exact T2).
+  destruct (run_closing _ _ _ _ Hc2 R3) as (Hc3 & _).
+  destruct (root_cause ctl st3 HR3) as [P1 P2].
+  assert (Hex := run_closing_exact _ _ _ _ Hc2 R3).
+  assert (H4 : forall r o, In r (pending_rids st2) -> outcome_of r (c_done st3) = Some o -> o = FailBroken e).
+  { intros r o Hp Ho. apply outcome_of_some_In in Ho.
+    destruct (inv_acct _ I2) as (_ & _ & Hpend & _). destruct (Hpend r Hp) as [Hsub Hnd].
+    destruct (Hex r o Ho) as [H|[H|[_ H]]]; [|exact H|tauto].
+    exfalso. apply Hnd. apply (in_map fst) in H. exact H. }
+  split; [exact Hc3|]. split; [|split; [|split; [exact H4|]]].
+  - intros r e' Hin. specialize (P1 r e' Hin).
+    destruct P1 as [A|[A|A]]; destruct Hc3 as [B|[B|B]]; rewrite A in B; congruence.
+  - intros r o Hin. destruct (Hex r o Hin) as [H|[H|[H1 H2]]]; [left; exact H|right; left; exact H|].
+    right. right. subst o. repeat split; [apply (P2 r); exact Hin|exact H2].
+  - intros HB r Hp.
+    destruct (all_fail ctl ls1 l ls2 st1 st2 st3 e e R1 S2 T2 R3 HB) as (_ & Hall & _).
+    destruct (Hall r Hp) as (o & Ho & _). rewrite Ho. f_equal. apply (H4 r o Hp Ho).
+Qed.
+
+(* What /repo bbe7c96 repaired, in general: whenever a fault hits while a sender holds a channel slot (or
+   its task is in the channel, or in the handler map), there is a finishing schedule of router steps and
+   pushes within td_measure steps after which the request has failed with the connection's error, and in
+   EVERY schedule in which the router finishes the request has failed with that error: the router cannot
+   finish over a stranded request. *)
+Lemma post_fix_general ctl ls l st st2 e r :
+  run (conn_init ctl) ls = Some st -> step st l = Some st2 -> c_status st2 = TearingDown e ->
+  In r (pending_rids st2) ->
+  (exists fin st3, run st2 fin = Some st3 /\ Forall (fun l => l = TdStep \/ exists r, l = Push r) fin /\
+     (List.length fin <= td_measure st2)%nat /\ c_status st3 = Broken e /\
+     outcome_of r (c_done st3) = Some (FailBroken e)) /\
+  (forall ls2 st3 e', run st2 ls2 = Some st3 -> c_status st3 = Broken e' ->
+     e' = e /\ outcome_of r (c_done st3) = Some (FailBroken e)).
+Proof.
+  intros R S2 T2 Hp. split.
+  - destruct (fault_completes_all ctl ls l st st2 e R S2 T2) as (fin & st3 & R3 & HF & HL & HB & _).
+    exists fin, st3. repeat split; try assumption.
+    destruct (root_cause_run ctl ls l fin st st2 st3 e R S2 T2 R3) as (_ & _ & _ & _ & H5). apply H5; assumption.
+  - intros ls2 st3 e' R3 HB.
+    destruct (all_fail ctl ls l ls2 st st2 st3 e e' R S2 T2 R3 HB) as (Ee & _). subst e'. split; [reflexivity|].
+    destruct (root_cause_run ctl ls l ls2 st st2 st3 e R S2 T2 R3) as (_ & _ & _ & _ & H5). apply H5; assumption.
+Qed.
+
+(* ---------- receiver.close() is reached after at most handlers + 1 router steps ---------- *)
+Definition is_td (l : label) : bool := match l with TdStep => true | _ => false end.
+
+Lemma step_to_close st l st' e : c_status st = TearingDown e -> step st l = Some st' ->
+  chan_closed st' = true \/
+  (c_status st' = TearingDown e /\
+   (List.length (c_handlers st') + (if is_td l then 1 else 0) <= List.length (c_handlers st))%nat).
+Proof.
+  intros Es Hs. assert (Hst : closing e st) by (left; exact Es). pose proof (closing_not_open _ _ Hst) as Hno.
+  destruct l as [r|r|r|so|bs| |k| |r| |]; unfold step in Hs; cbn [is_td].
+  - destruct (nmem r (c_submitted st)); [discriminate|].
+    change (chan_closed (set_submitted (c_submitted st ++ [r]) st)) with (chan_closed st) in Hs.
+    unfold chan_closed in Hs. rewrite Es in Hs. injection Hs as <-. right. cbn. split; [exact Es|lia].
+  - destruct (nmem r (c_reserved st)); [|discriminate]. injection Hs as <-. right. cbn. split; [exact Es|lia].
+  - destruct (nmem r (c_submitted st)); [discriminate|]. rewrite Hno in Hs. discriminate.
+  - rewrite Hno in Hs. discriminate.
+  - rewrite Hno in Hs. injection Hs as <-. right. split; [exact Es|lia].
+  - rewrite Hno in Hs. discriminate.
+  - rewrite Hno in Hs. discriminate.
+  - rewrite Hno in Hs. discriminate.
+  - destruct (nmem r (c_submitted st) && negb (nmem r (map fst (c_done st))) && negb (nmem r (c_cancelled st))); [|discriminate].
+    injection Hs as <-. right. cbn. split; [exact Es|lia].
+  - rewrite Hno in Hs. discriminate.
+  - rewrite Es in Hs. destruct (c_handlers st) as [|[s r] h] eqn:Eh; injection Hs as <-.
+    + left. reflexivity.
+    + right. destruct (complete_fields r (FailBroken e) (set_handlers h st)) as (_&E2&_).
+      rewrite E2. cbn. split; [|lia]. rewrite (complete_closing e); [exact Es|left; exact Es].
+Qed.
+
+Lemma run_chan_closed ls : forall st st', Inv st -> chan_closed st = true -> run st ls = Some st' -> chan_closed st' = true.
+Proof.
+  induction ls as [|l rest IH]; intros st st' HI Hcl Hr; cbn [run] in Hr.
+  - injection Hr as <-. exact Hcl.
+  - destruct (step st l) as [s1|] eqn:E; [|discriminate].
+    destruct (step_potential_draining _ _ _ HI Hcl E) as (_ & Hcl1).
+    eapply IH; [eapply inv_step; eassumption|exact Hcl1|exact Hr].
+Qed.
+
+(* whatever is interleaved, handlers + 1 steps of the router bring receiver.close(): from then on every new
+   submit is refused at once (C10_later_submit_fails) and the remaining work only shrinks (C10_fair_drain) *)
+Lemma fair_close ctl ls : forall st st' e, reachable ctl st -> c_status st = TearingDown e -> run st ls = Some st' ->
+  (List.length (c_handlers st) < cnt is_td ls)%nat -> chan_closed st' = true.
+Proof.
+  intros st st' e HR. apply inv_reachable in HR. revert st st' e HR.
+  induction ls as [|l rest IH]; intros st st' e HI Es Hr Hn; cbn [run] in Hr.
+  - unfold cnt in Hn. cbn in Hn. lia.
+  - destruct (step st l) as [s1|] eqn:E; [|discriminate].
+    assert (I1 : Inv s1) by (eapply inv_step; eassumption).
+    destruct (step_to_close _ _ _ _ Es E) as [Hcl|[Es1 Hlen]].
+    + eapply run_chan_closed; eassumption.
+    + eapply IH; [exact I1|exact Es1|exact Hr|].
+      unfold cnt in *. cbn [filter] in Hn. destruct (is_td l); cbn [List.length] in Hn; lia.
+Qed.
